@@ -30,7 +30,8 @@ LArp   == <<F("hwtype", 16, "u", "fix"), F("prototype", 16, "u", "fix"), F("hwle
             F("hwsrc", 48, "b", "free"), F("protosrc", 32, "b", "free"),
             F("hwdst", 48, "b", "free"), F("protodst", 32, "b", "free")>>
 LIp4   == <<F("v", 4, "u", "fix"), F("hl", 4, "u", "fix"), F("tos", 8, "u", "free"),
-            F("iplen", 16, "u", "der"), F("ident", 16, "u", "free"), F("flags", 3, "u", "free"),
+            F("iplen", 16, "u", "der"), F("ident", 16, "u", "free"),
+            F("rf", 1, "u", "free"), F("df", 1, "u", "free"), F("mf", 1, "u", "fix"),     \* the three flag bits
             F("frag", 13, "u", "fix"), F("ttl", 8, "u", "free"), F("protocol", 8, "u", "fix"),
             F("csum", 16, "u", "der"), F("srcip", 32, "b", "free"), F("dstip", 32, "b", "free")>>
 LIcmp  == <<F("type", 8, "u", "fix"), F("code", 8, "u", "free"), F("csum", 16, "u", "der")>>
@@ -72,23 +73,35 @@ LRa    == <<F("hoplimit", 8, "u", "free"), F("m", 1, "u", "free"), F("o", 1, "u"
             F("rsv6", 6, "u", "fix"), F("lifetime", 16, "u", "free"), F("reachable", 32, "b", "free"),
             F("retrans", 32, "b", "free")>>
 LToobig == <<F("mtu4", 32, "b", "free")>>
+\* RFC 1035 4.1.1 (AD, CD: RFC 2535)
+LDns   == <<F("ident", 16, "u", "free"), F("qr", 1, "u", "free"), F("opcode", 4, "u", "free"),
+            F("aa", 1, "u", "free"), F("tc", 1, "u", "free"), F("rd", 1, "u", "free"), F("ra", 1, "u", "free"),
+            F("z", 1, "u", "free"), F("ad", 1, "u", "free"), F("cd", 1, "u", "free"), F("rcode", 4, "u", "free"),
+            F("qd", 16, "u", "der"), F("an", 16, "u", "der"), F("ns", 16, "u", "der"), F("ar", 16, "u", "der")>>
+\* RFC 4443 3.3: the unused field "must be initialized to zero by the originator and ignored by the receiver"
+LTimex6 == <<F("unused4", 32, "b", "fix")>>
 
 Layouts == [eth |-> LEth, vlan |-> LVlan, arp |-> LArp, ipv4 |-> LIp4, icmp |-> LIcmp, echo |-> LEcho,
             unreach |-> LUnreach, timex |-> LTimex, udp |-> LUdp, tcp |-> LTcp, mpls |-> LMpls,
             ipv6 |-> LIp6, icmp6 |-> LIcmp6, echo6 |-> LEcho, vxlan |-> LVxlan, igmp |-> LIgmp,
             rip |-> LRip, ripentry |-> LRipE, eapol |-> LEapol, eap |-> LEap, dhcp |-> LDhcp,
-            ns |-> LNs, na |-> LNa, rs |-> LRs, ra |-> LRa, toobig |-> LToobig, unreach6 |-> LTimex,
-            timex6 |-> LTimex]
+            dns |-> LDns, ns |-> LNs, na |-> LNa, rs |-> LRs, ra |-> LRa, toobig |-> LToobig, unreach6 |-> LTimex,
+            timex6 |-> LTimex6]
 HasLayout(p) == p \in DOMAIN Layouts
 
 ---------------------------------------------------------------------------
 (* Table-driven encoding / decoding of a fixed header                      *)
 
-FieldBits(lay, L) ==
-  Concat([i \in 1..Len(lay) |->
-            IF lay[i].k = "u" THEN <<<<L[lay[i].n], lay[i].w>>>>
-            ELSE [j \in 1..(lay[i].w \div 8) |-> <<L[lay[i].n][j], 8>>]])
-EncFixed(lay, L) == PackBits(FieldBits(lay, L))
+\* fields in order, most significant bit first; byte-string fields are byte aligned
+RECURSIVE EncFrom(_, _, _, _, _)
+EncFrom(lay, L, i, acc, nb) ==          \* acc: the nb < 8 bits not yet emitted
+  IF i > Len(lay) THEN <<>>
+  ELSE IF lay[i].k = "b" THEN L[lay[i].n] \o EncFrom(lay, L, i + 1, 0, 0)
+  ELSE LET w == lay[i].w
+           t == nb + w
+           a == acc * (2 ^ w) + L[lay[i].n]
+       IN Emit(a, t) \o EncFrom(lay, L, i + 1, a % (2 ^ (t % 8)), t % 8)
+EncFixed(lay, L) == EncFrom(lay, L, 1, 0, 0)
 RECURSIVE BitOff(_, _)
 BitOff(lay, i) == IF i = 1 THEN 0 ELSE BitOff(lay, i - 1) + lay[i - 1].w
 Width(lay) == BitOff(lay, Len(lay) + 1) \div 8          \* bytes
@@ -165,7 +178,15 @@ DecExts(b, i, t) ==          \* [ok, es, at (index after), nh (upper protocol)]
             IN [ok |-> r.ok, es |-> <<e>> \o r.es, at |-> r.at, nh |-> r.nh]
 
 \* DHCP options (RFC 2132 2): code, length, data; 0 = pad, 255 = end.  [k, d]
-EncDhcpOpt(o) == <<o.k, Len(o.d)>> \o o.d
+EncDhcpOpt(o) == IF o.k = 0 THEN <<0>> ELSE <<o.k, Len(o.d)>> \o o.d
+RECURSIVE StripPads(_)
+StripPads(os) == IF os = <<>> THEN <<>>
+                 ELSE (IF os[1].k = 0 THEN <<>> ELSE <<os[1]>>) \o StripPads(Tail(os))
+\* the two usual placements of pad options: none, or one after every option of odd size
+RECURSIVE EvenPadded(_)
+EvenPadded(os) == IF os = <<>> THEN <<>>
+                  ELSE <<os[1]>> \o (IF Len(os[1].d) % 2 = 1 THEN <<[k |-> 0, d |-> <<>>]>> ELSE <<>>)
+                       \o EvenPadded(Tail(os))
 
 \* 802.2 LLC: DSAP, SSAP, control (two bytes for I and S formats, one byte
 \* for U format), optionally SNAP (OUI, protocol id).  ctl is a byte string.
@@ -179,6 +200,80 @@ GreHdr(L) == PackBits(<<<<L.c, 1>>, <<0, 1>>, <<L.k, 1>>, <<L.sq, 1>>, <<0, 1>>,
                         <<0, 5>>, <<L.ver, 3>>, <<L.type, 16>>>>)
              \o (IF L.c = 1 THEN U16(L.csum) \o U16(L.offset) ELSE <<>>)
              \o (IF L.k = 1 THEN L.key ELSE <<>>) \o (IF L.sq = 1 THEN L.seq ELSE <<>>)
+
+\* DNS messages (RFC 1035 4.1).  A name is a sequence of labels (byte strings);
+\* on the wire: length-prefixed labels and a zero byte, or (4.1.4, optional for
+\* the sender) a two-byte pointer 11xxxxxx xxxxxxxx to an earlier occurrence.
+\* cmp = 0: no compression; cmp = 1: a name that is identical to one written
+\* earlier in the message is replaced by a pointer to its first occurrence.
+\* question: [name, qtype, qclass]; record: [name, type, class, ttl, rd] where
+\* rd = [k |-> "raw", d |-> bytes] or [k |-> "name", d |-> name] (NS, CNAME, PTR).
+NameTypes == {2, 5, 12}
+Labels(name) == Concat([i \in 1..Len(name) |-> <<Len(name[i])>> \o name[i]]) \o <<0>>
+SeenAt(seen, name) == LET js == {j \in 1..Len(seen) : seen[j][1] = name}
+                      IN IF js = {} THEN 0 - 1 ELSE seen[CHOOSE j \in js : \A k \in js : j <= k][2]
+NameBytes(seen, name, cmp) ==
+  LET at == SeenAt(seen, name)
+  IN IF cmp = 1 /\ at >= 0 THEN <<192 + at \div 256, at % 256>> ELSE Labels(name)
+\* st = [s |-> bytes so far, seen |-> <<name, offset>> pairs of names written out in full]
+PutName(st, name, cmp, shift) ==
+  LET enc == NameBytes(st.seen, name, cmp)
+  IN [s |-> st.s \o enc,
+      seen |-> IF Len(enc) = 2 /\ Len(name) > 0 /\ enc[1] >= 192 THEN st.seen
+               ELSE Append(st.seen, <<name, Len(st.s) + shift>>)]
+PutQ(st, q, cmp) == LET t == PutName(st, q.name, cmp, 0) IN [t EXCEPT !.s = t.s \o U16(q.qtype) \o U16(q.qclass)]
+PutRR(st, r, cmp) ==
+  LET t  == PutName(st, r.name, cmp, 0)
+      t1 == [t EXCEPT !.s = t.s \o U16(r.type) \o U16(r.class) \o r.ttl]
+  IN IF r.rd.k = "raw" THEN [t1 EXCEPT !.s = t1.s \o U16(Len(r.rd.d)) \o r.rd.d]
+     ELSE LET enc == NameBytes(t1.seen, r.rd.d, cmp)
+              t2  == PutName(t1, r.rd.d, cmp, 2)          \* the name starts after the RDLENGTH field
+          IN [t2 EXCEPT !.s = t1.s \o U16(Len(enc)) \o enc]
+RECURSIVE PutAll(_, _, _, _, _)
+PutAll(st, xs, i, cmp, isQ) ==
+  IF i > Len(xs) THEN st
+  ELSE PutAll(IF isQ THEN PutQ(st, xs[i], cmp) ELSE PutRR(st, xs[i], cmp), xs, i + 1, cmp, isQ)
+DnsBytes(L) ==
+  LET h  == EncFixed(LDns, [L EXCEPT !.qd = Len(L.qs), !.an = Len(L.ans), !.ns = Len(L.auth), !.ar = Len(L.add)])
+      s0 == [s |-> h, seen |-> <<>>]
+      s1 == PutAll(s0, L.qs, 1, L.cmp, TRUE)
+  IN PutAll(s1, L.ans \o L.auth \o L.add, 1, L.cmp, FALSE).s
+
+\* reading a name: [ok, name, next (index after the name in the enclosing sequence), ptr (a pointer was followed)]
+RECURSIVE ReadName(_, _, _)
+ReadName(b, i, depth) ==
+  IF i > Len(b) \/ depth > 8 THEN [ok |-> FALSE, name |-> <<>>, next |-> i, ptr |-> FALSE]
+  ELSE IF b[i] = 0 THEN [ok |-> TRUE, name |-> <<>>, next |-> i + 1, ptr |-> FALSE]
+  ELSE IF b[i] >= 192 THEN
+         IF i + 1 > Len(b) THEN [ok |-> FALSE, name |-> <<>>, next |-> i, ptr |-> FALSE]
+         ELSE LET r == ReadName(b, (b[i] - 192) * 256 + b[i + 1] + 1, depth + 1)
+              IN [ok |-> r.ok, name |-> r.name, next |-> i + 2, ptr |-> TRUE]
+  ELSE IF b[i] > 63 \/ i + b[i] > Len(b) THEN [ok |-> FALSE, name |-> <<>>, next |-> i, ptr |-> FALSE]
+  ELSE LET r == ReadName(b, i + 1 + b[i], depth)
+       IN [ok |-> r.ok, name |-> <<SubSeq(b, i + 1, i + b[i])>> \o r.name, next |-> r.next, ptr |-> r.ptr]
+RECURSIVE ReadQs(_, _, _), ReadRRs(_, _, _)
+ReadQs(b, i, k) ==            \* [ok, xs, next, ptr]
+  IF k = 0 THEN [ok |-> TRUE, xs |-> <<>>, next |-> i, ptr |-> FALSE]
+  ELSE LET n == ReadName(b, i, 0)
+       IN IF ~n.ok \/ n.next + 3 > Len(b) THEN [ok |-> FALSE, xs |-> <<>>, next |-> i, ptr |-> FALSE]
+          ELSE LET r == ReadQs(b, n.next + 4, k - 1)
+               IN [ok |-> r.ok, next |-> r.next, ptr |-> n.ptr \/ r.ptr,
+                   xs |-> <<[name |-> n.name, qtype |-> N16(b, n.next), qclass |-> N16(b, n.next + 2)]>> \o r.xs]
+ReadRRs(b, i, k) ==
+  IF k = 0 THEN [ok |-> TRUE, xs |-> <<>>, next |-> i, ptr |-> FALSE]
+  ELSE LET n == ReadName(b, i, 0)
+       IN IF ~n.ok \/ n.next + 9 > Len(b) THEN [ok |-> FALSE, xs |-> <<>>, next |-> i, ptr |-> FALSE]
+          ELSE LET ty  == N16(b, n.next)
+                   len == N16(b, n.next + 8)
+                   at  == n.next + 10
+               IN IF at + len - 1 > Len(b) THEN [ok |-> FALSE, xs |-> <<>>, next |-> i, ptr |-> FALSE]
+                  ELSE LET dn == ReadName(b, at, 0)
+                           isn == ty \in NameTypes
+                           rd == IF isn THEN [k |-> "name", d |-> dn.name] ELSE [k |-> "raw", d |-> SubSeq(b, at, at + len - 1)]
+                           r  == ReadRRs(b, at + len, k - 1)
+                       IN [ok |-> r.ok /\ (isn => dn.ok), next |-> r.next, ptr |-> n.ptr \/ r.ptr \/ (isn /\ dn.ptr),
+                           xs |-> <<[name |-> n.name, type |-> ty, class |-> N16(b, n.next + 2),
+                                     ttl |-> SubSeq(b, n.next + 4, n.next + 7), rd |-> rd]>> \o r.xs]
 
 ---------------------------------------------------------------------------
 (* Assembly                                                                 *)
@@ -204,6 +299,7 @@ Hdr(L) ==
                                      <<L.recs[i].t, Len(L.recs[i].aux) \div 4>> \o U16(Len(L.recs[i].srcs))
                                      \o L.recs[i].group \o Concat(L.recs[i].srcs) \o L.recs[i].aux])
     [] L.p = "rip"   -> EncFixed(LRip, L) \o Concat([i \in 1..Len(L.entries) |-> EncFixed(LRipE, L.entries[i])])
+    [] L.p = "dns"   -> DnsBytes(L)
     [] L.p = "dhcp"  -> EncFixed(LDhcp, L) \o Concat([i \in 1..Len(L.opts) |-> EncDhcpOpt(L.opts[i])]) \o <<255>>
     [] L.p \in {"ns", "na", "rs", "ra"} ->
          EncFixed(Layouts[L.p], L) \o Concat([i \in 1..Len(L.opts) |->
@@ -235,6 +331,7 @@ Fill(L, in, prev) ==
          IF L.c = 1 THEN [L EXCEPT !.csum = Csum(Hdr([L EXCEPT !.csum = 0]) \o in)] ELSE L
     [] L.p = "eapol" -> [L EXCEPT !.bodylen = Len(in)]
     [] L.p = "eap" -> [L EXCEPT !.length = 4 + Len(in)]
+    [] L.p = "dns" -> [L EXCEPT !.qd = Len(L.qs), !.an = Len(L.ans), !.ns = Len(L.auth), !.ar = Len(L.add)]
     [] OTHER -> L
 
 RECURSIVE Asm(_, _)
@@ -322,10 +419,42 @@ DecMpls(b) ==
 DecVxlan(b) ==
   IF Len(b) < 8 THEN RawL(b) ELSE <<Lay("vxlan", b)>> \o DecEth(Drop(b, 8))
 
+\* IGMPv3 membership report (RFC 3376 4.2): group records
+RECURSIVE DecRecs(_, _, _)
+DecRecs(b, i, k) ==          \* k records from index i: [ok, rs, at]
+  IF k = 0 THEN [ok |-> TRUE, rs |-> <<>>, at |-> i]
+  ELSE IF i + 7 > Len(b) THEN [ok |-> FALSE, rs |-> <<>>, at |-> i]
+  ELSE LET ns == N16(b, i + 2)
+           n  == 8 + 4 * ns + 4 * b[i + 1]
+       IN IF i + n - 1 > Len(b) THEN [ok |-> FALSE, rs |-> <<>>, at |-> i]
+          ELSE LET rec == [t |-> b[i], group |-> SubSeq(b, i + 4, i + 7),
+                           srcs |-> [j \in 1..ns |-> SubSeq(b, i + 4 + 4 * j, i + 7 + 4 * j)],
+                           aux |-> SubSeq(b, i + 8 + 4 * ns, i + n - 1)]
+                   r == DecRecs(b, i + n, k - 1)
+               IN [ok |-> r.ok, rs |-> <<rec>> \o r.rs, at |-> r.at]
 DecIgmp(b) ==
   IF Len(b) < 8 THEN RawL(b)
   ELSE IF b[1] \in {17, 18, 22, 23} THEN <<Lay("igmp", b)>> \o RawL(Drop(b, 8))
-  ELSE RawL(b)       \* (v3 reports: see the notes; not decoded by the model)
+  ELSE IF b[1] = 34
+       THEN LET r == DecRecs(b, 9, N16(b, 7))
+            IN IF r.ok THEN <<[p |-> "igmp3", csum |-> N16(b, 3), recs |-> r.rs]>> \o RawL(Drop(b, r.at - 1))
+               ELSE RawL(b)
+  ELSE RawL(b)
+
+\* DHCP options up to the end option; pad options are kept (k = 0, no length octet)
+RECURSIVE DecDhcpOpts(_, _)
+DecDhcpOpts(b, i) ==
+  IF i > Len(b) THEN [ok |-> FALSE, os |-> <<>>]
+  ELSE IF b[i] = 255 THEN [ok |-> TRUE, os |-> <<>>]
+  ELSE IF b[i] = 0 THEN LET r == DecDhcpOpts(b, i + 1) IN [ok |-> r.ok, os |-> <<[k |-> 0, d |-> <<>>]>> \o r.os]
+  ELSE IF i + 1 > Len(b) \/ i + 1 + b[i + 1] > Len(b) THEN [ok |-> FALSE, os |-> <<>>]
+  ELSE LET r == DecDhcpOpts(b, i + 2 + b[i + 1])
+       IN [ok |-> r.ok, os |-> <<[k |-> b[i], d |-> SubSeq(b, i + 2, i + 1 + b[i + 1])]>> \o r.os]
+DecDhcp(b) ==
+  IF Len(b) < 240 THEN RawL(b)
+  ELSE LET r == DecDhcpOpts(b, 241)
+       IN IF r.ok /\ SubSeq(b, 237, 240) = <<99, 130, 83, 99>>
+          THEN <<[p |-> "dhcp", opts |-> r.os] @@ DecFixed(LDhcp, b)>> ELSE RawL(b)
 
 DecRip(b) ==
   IF Len(b) < 24 \/ (Len(b) - 4) % 20 # 0 \/ N16(b, 3) # 0 THEN RawL(b)
@@ -333,12 +462,26 @@ DecRip(b) ==
                                       DecFixed(LRipE, SubSeq(b, 20 * i - 15, 20 * i + 4))]]
          @@ DecFixed(LRip, b)>>
 
+DecDns(b) ==
+  IF Len(b) < 12 THEN RawL(b)
+  ELSE LET h == DecFixed(LDns, b)
+           q == ReadQs(b, 13, h.qd)
+           a == ReadRRs(b, q.next, h.an)
+           n == ReadRRs(b, a.next, h.ns)
+           x == ReadRRs(b, n.next, h.ar)
+       IN IF q.ok /\ a.ok /\ n.ok /\ x.ok
+          THEN <<[p |-> "dns", qs |-> q.xs, ans |-> a.xs, auth |-> n.xs, add |-> x.xs,
+                  cmp |-> IF q.ptr \/ a.ptr \/ n.ptr \/ x.ptr THEN 1 ELSE 0] @@ h>>
+          ELSE RawL(b)
+
 DecUdp(b) ==
   IF Len(b) < 8 THEN RawL(b)
   ELSE LET L == Lay("udp", b)
            rest == Drop(b, 8)
        IN IF L.len < 8 THEN <<L>>
-          ELSE <<L>> \o (CASE L.dstport = 520 \/ L.srcport = 520 -> DecRip(rest)
+          ELSE <<L>> \o (CASE L.dstport \in {67, 68} -> DecDhcp(rest)
+                           [] L.dstport \in {53, 5353} \/ L.srcport \in {53, 5353} -> DecDns(rest)
+                           [] L.dstport = 520 \/ L.srcport = 520 -> DecRip(rest)
                            [] L.dstport = 4789 \/ L.srcport = 4789 -> DecVxlan(rest)
                            [] OTHER -> RawL(rest))
 
@@ -377,6 +520,9 @@ DecIp4(b) ==
        IN IF h.v # 4 \/ h.hl < 5 \/ h.iplen < 20 \/ 4 * h.hl > h.iplen \/ 4 * h.hl > Len(b) THEN RawL(b)
           ELSE LET L == [p |-> "ipv4", opts |-> SubSeq(b, 21, 4 * h.hl)] @@ h
                    body == SubSeq(b, 4 * h.hl + 1, Min(h.iplen, Len(b)))
+               \* fragments are not reassembled: their payload stays opaque.  (Whether the
+               \* FIRST fragment - MF set, offset 0 - has its transport header parsed is
+               \* left open: the corpus builds such datagrams only with an opaque payload.)
                IN <<L>> \o (CASE h.frag # 0 -> RawL(body)
                               [] h.protocol = 17 -> DecUdp(body)
                               [] h.protocol = 6 -> DecTcp(body)
@@ -440,7 +586,15 @@ ParseStack(b) == DecEth(b)
 \* opaque payloads as literal bytes
 Expand(s) == [i \in 1..Len(s) |-> IF s[i].p = "raw" THEN [p |-> "rawb", data |-> RawBytes(s[i])] ELSE s[i]]
 \* TCP option lists are compared up to the end-of-list option
-NormLayer(L) == IF L.p = "tcp" THEN [L EXCEPT !.opts = StripEol(L.opts)] ELSE L
+\* DHCP pad options carry no information (RFC 2132 3.1)
+NormLayer(L) == IF L.p = "tcp" THEN [L EXCEPT !.opts = StripEol(L.opts)]
+                ELSE IF L.p = "dhcp" THEN [L EXCEPT !.opts = StripPads(L.opts)]
+                ELSE IF L.p = "dns" THEN [L EXCEPT !.cmp = 0] ELSE L       \* whether names were compressed is not a field
+\* serialisations that differ only in what carries no information: where DHCP
+\* pad options are placed, whether repeated DNS names are compressed
+PadVariants(s) == {s, [i \in 1..Len(s) |-> IF s[i].p = "dhcp" THEN [s[i] EXCEPT !.opts = EvenPadded(StripPads(s[i].opts))]
+                                           ELSE IF s[i].p = "dns" THEN [s[i] EXCEPT !.cmp = 1 - s[i].cmp]
+                                           ELSE s[i]]}
 Norm(s) == [i \in 1..Len(s) |-> NormLayer(s[i])]
 PayLen(s) == IF Len(s) = 0 THEN 0
              ELSE LET L == s[Len(s)] IN IF L.p = "raw" THEN L.n ELSE IF L.p = "rawb" THEN Len(L.data) ELSE 0
